@@ -182,7 +182,13 @@ def run(ctx, F):
         for c in us:
             gs = [p for p in guards(f, c.bb)]
             flag = [p for p in gs if show(p.tree).endswith("unlog_traced_object") and p.val is True]
-            other = [p for p in gs if p not in flag and not any(re.search(e, show(p.tree)) for e in extra_ok)]
+            # conditions that already decide whether the object is marked at all (the mark test-and-set itself is guarded by
+            # them) are not conditions on the unlogging
+            base = set()
+            for e in extra_ok:
+                for mc in [x for x in live_calls(f) if re.search(e, x.name or "")]:
+                    base |= {(show(p.tree), p.val) for p in guards(f, mc.bb)}
+            other = [p for p in gs if p not in flag and not any(re.search(e, show(p.tree)) for e in extra_ok) and (show(p.tree), p.val) not in base]
             det.append([("%s==%s" % (show(p.tree)[:60], p.val)) for p in gs])
             oku = oku and len(flag) == 1 and not other
         ctx.judge(oku, "C05.unlog-on-trace", "%s re-arms the unlog bit of every object it keeps" % short(q),
